@@ -7,7 +7,7 @@ headers and returns a Unit with location-annotated nodes.  `map_units()` fans
 analysis functions out over a process pool.  Nothing is compiled to machine
 code or executed.
 """
-import json, os, subprocess, sys, tempfile, shutil, atexit, importlib
+import json, os, re, subprocess, sys, tempfile, shutil, atexit, importlib
 from concurrent.futures import ProcessPoolExecutor
 from .report import REPO, VERIF, AnalysisError
 
@@ -151,14 +151,33 @@ class Unit:
 
 
 def load_unit(name, path, meta=None, defines=(), _align=True):
-    cmd = ["clang", "-std=c99", "-nostdinc", "-I", STUBS, "-fsyntax-only", "-Wno-everything",
-           "-Xclang", "-ast-dump=json"] + ["-D%s" % d for d in defines] + [path]
-    proc = subprocess.run(cmd, capture_output=True)
+    extra_inc = []
+    unknown_headers = []
+    for _ in range(6):
+        cmd = ["clang", "-std=c99", "-nostdinc", "-I", STUBS] + extra_inc + ["-fsyntax-only", "-Wno-everything",
+               "-Xclang", "-ast-dump=json"] + ["-D%s" % d for d in defines] + [path]
+        proc = subprocess.run(cmd, capture_output=True)
+        if proc.returncode == 0:
+            break
+        err = proc.stderr.decode(errors="replace")
+        m = re.search(r"fatal error: '([^']+)' file not found", err)
+        if not m:
+            break
+        # a system header the stub set does not know: give it an empty stand-in (its functions become undeclared
+        # callees, which the rules see by name) and remember that it was included
+        hdr = m.group(1)
+        d = os.path.join(scratch_dir(), "stub_%s" % name)
+        os.makedirs(os.path.join(d, os.path.dirname(hdr)), exist_ok=True)
+        open(os.path.join(d, hdr), "w").write("/* unknown system header: empty stand-in */\n")
+        if ["-I", d] != extra_inc[-2:]:
+            extra_inc += ["-I", d]
+        unknown_headers.append(hdr)
     if proc.returncode != 0:
         raise AnalysisError("clang failed on %s: %s" % (name, proc.stderr.decode(errors="replace").strip().splitlines()[:3]))
     ast = json.loads(proc.stdout)
     annotate(ast)
     unit = Unit(name, path, ast, meta or {})
+    unit.unknown_headers = unknown_headers
     if _align:
         from . import calpha
         unit.aligned = calpha.align(unit)
